@@ -741,15 +741,26 @@ class CallMixin:
             acc = self.binop("Add", acc, it)
         return acc
 
-    def bi_min(self, *a):
+    def _minmax(self, a, is_min):
+        if len(a) == 1:
+            a = tuple(self.iterate(a[0]))
         if all(isinstance(x, (int, float)) for x in a):
-            return min(*a)
-        raise Unsupported("symbolic min")
+            return min(*a) if is_min else max(*a)
+        from .interp_ops import zint, conc_of
+        if all(isinstance(x, (int, bool, SInt)) for x in a):
+            r, cn = zint(a[0]), conc_of(a[0])
+            for x in a[1:]:
+                t = zint(x)
+                r = z3.If((t < r) if is_min else (t > r), t, r)
+                cn = z3.And(cn, conc_of(x))
+            return SInt(r, cn)
+        raise Unsupported("symbolic min/max on non-integers")
+
+    def bi_min(self, *a):
+        return self._minmax(a, True)
 
     def bi_max(self, *a):
-        if all(isinstance(x, (int, float)) for x in a):
-            return max(*a)
-        raise Unsupported("symbolic max")
+        return self._minmax(a, False)
 
     def bi_abs(self, a):
         if isinstance(a, (int, float)):
